@@ -53,3 +53,14 @@ package htmldoc
 //@   ensures cell_safe: forall k int :: {res[k]} 0 <= k && k < len(res) ==> cellSafeAt(res, k)
 //@   loop 0:
 //@     invariant forall k int :: {result[k]} 0 <= k && k < len(result) ==> cellSafeAt(result, k)
+
+// ---- C19: elements already emitted must not share a backing array with accumulators that keep growing ----
+//@ func (*Reader) traverseNodeFiltered
+//@   property C19
+//@   flags frameonly, noalias
+//@   fresh listItems
+
+//@ func (*Reader) traverseNode
+//@   property C19
+//@   flags frameonly, noalias
+//@   fresh listItems
